@@ -637,6 +637,8 @@ class Interp:
         raise Unsupported("isinstance against %r" % (t,))
 
     def modcall(self, q, args, kw):
+        if q in self.contracts:
+            return self.contracts[q](self, args, kw)
         if q in ("np.min", "np.max", "np.amin", "np.amax"):
             a = list(np.asarray(args[0], dtype=object).ravel())
             if has_sym(a):
